@@ -10,7 +10,7 @@ for f in sys.argv[1:]:
             cross.setdefault(m.group(1), set()).add(m.group(2))
 print("| Seeded change | Breaks | Needs, in order to manifest | Reported by (quick tier) | Clauses |")
 print("|---|---|---|---|---|")
-for d in sorted(os.listdir('/verif/seeded')):
+for d in sorted(x for x in os.listdir('/verif/seeded') if not x.startswith('_') and os.path.isdir('/verif/seeded/' + x)):
     m = json.load(open('/verif/seeded/%s/meta.json' % d))
     needs = m["needs_to_manifest"]
     # first "what it needs" sentence of the seeder's notes, if the meta has the whole notes
